@@ -136,6 +136,8 @@ func c14Hook() {
 	c14HookOnce.Do(func() { gomavlib.VerifSetReconnectPeriod(c14Reconnect) })
 }
 
+func c14ResetDeadline(c net.Conn) { c.SetReadDeadline(time.Time{}) } //nolint:errcheck
+
 type lifeEvent struct {
 	open bool
 	t    time.Time
@@ -279,37 +281,63 @@ func runTCPClient(phases []phase) error {
 		if err != nil {
 			return fmt.Errorf("BROKEN: listen: %v", err)
 		}
-		l.(*net.TCPListener).SetDeadline(time.Now().Add(bound)) //nolint:errcheck
-		conn, err := l.Accept()
-		l.Close()
-		if err != nil {
-			return fmt.Errorf("phase %d: the client never connected again within %v (events:%s)", pi, bound, renderLife(lifecycle(rec.Snapshot())))
-		}
-		// measured on the peer's side, where no consumer is involved: the node cannot notice the end of a connection
-		// before the peer ends it, and its next attempt comes a reconnect delay after it noticed
-		if !lastPeerClose.IsZero() {
-			if d := time.Since(lastPeerClose); d < c14Reconnect*9/10 {
-				conn.Close()
-				return fmt.Errorf("phase %d: the client connected again %v after the peer ended the previous connection; the reconnect delay is %v", pi, d, c14Reconnect)
+		// A connection the peer accepts is not necessarily one the client got: its attempt has a time budget (the
+		// connect timeout), and on a busy machine it can run out after the kernel completed the handshake; the
+		// client then drops that connection and tries again later. So the listener stays until a connection has
+		// turned into a channel; connections the client dropped without ever using them are not counted.
+		var conn net.Conn
+		opens := 0
+		phaseDeadline := time.Now().Add(bound)
+		for conn == nil {
+			l.(*net.TCPListener).SetDeadline(phaseDeadline) //nolint:errcheck
+			c, err := l.Accept()
+			if err != nil {
+				l.Close()
+				return fmt.Errorf("phase %d: the client never connected again within %v (events:%s)", pi, bound, renderLife(lifecycle(rec.Snapshot())))
+			}
+			// measured on the peer's side, where no consumer is involved: the node cannot notice the end of a
+			// connection before the peer ends it, and its next attempt comes a reconnect delay after it noticed
+			if !lastPeerClose.IsZero() {
+				if d := time.Since(lastPeerClose); d < c14Reconnect*9/10 {
+					c.Close()
+					l.Close()
+					return fmt.Errorf("phase %d: the client connected again %v after the peer ended the previous connection; the reconnect delay is %v", pi, d, c14Reconnect)
+				}
+			}
+			lastPeerClose = time.Time{}
+			dropped := false
+			for !dropped && time.Now().Before(phaseDeadline) {
+				if rec.WaitFor(20*time.Millisecond, func(recs []sim.Rec) bool {
+					opens = 0
+					for _, e := range lifecycle(recs) {
+						if e.open {
+							opens++
+						}
+					}
+					return opens >= accepted+1
+				}) {
+					conn = c
+					break
+				}
+				// nothing is ever sent to the peer in this scenario: a read that ends means the client let go
+				c.SetReadDeadline(time.Now().Add(5 * time.Millisecond)) //nolint:errcheck
+				if _, rerr := c.Read(make([]byte, 1)); rerr != nil && !isTimeout(rerr) {
+					dropped = true
+				}
+			}
+			if conn == nil {
+				c.Close()
+				if !dropped {
+					l.Close()
+					return fmt.Errorf("phase %d: connection %d established and kept by the client but no open event within %v (opens=%d)", pi, accepted+1, bound, opens)
+				}
 			}
 		}
-		lastPeerClose = time.Time{}
+		l.Close()
+		c14ResetDeadline(conn)
 		accepted++
 		if atomic.AddInt32(&live, 1) > 1 {
 			return fmt.Errorf("phase %d: a second connection arrived while the previous one was still open", pi)
-		}
-		opens := 0
-		if !rec.WaitFor(bound, func(recs []sim.Rec) bool {
-			opens = 0
-			for _, e := range lifecycle(recs) {
-				if e.open {
-					opens++
-				}
-			}
-			return opens >= accepted
-		}) {
-			conn.Close()
-			return fmt.Errorf("phase %d: connection %d established but no open event (opens=%d)", pi, accepted, opens)
 		}
 		for k := 0; k < ph.n; k++ {
 			conn.Write(tagged(1, k, "debug", true, nil, 0).Bytes()) //nolint:errcheck
